@@ -22,6 +22,7 @@ package crypto
 //@   ensures [C19] framing: result1 == nil ==> (exists n string :: len(n) == 24 && delivered(rand.Reader) == old(delivered(rand.Reader)) ++ n && bytes(result0) == n ++ sbBox(bytes(data), n, bytes(key)))
 //@   ensures [C19] rejected: result1 != nil ==> result0 == nil
 //@   ensures [C09] total: true
+//@   assigns delivered(rand.Reader), failed(rand.Reader)
 //@
 //@ // a value is returned only if the key is acceptable and the part after the first 24 bytes authenticates under
 //@ // (those 24 bytes, the key); the value is then the opened message
